@@ -392,6 +392,21 @@ func flags(repo string) []flag {
 		}
 		add("dispatchOutsideLock", ok, "")
 	}
+	// mux.closedPrefersCtx: a stream read that finds its registration closed reports the reader's own
+	// context error first
+	{
+		fd := mux.fn("RpcMultiplexer", "NewStreamReadWriter")
+		ok := false
+		inspect(fd, func(x ast.Node) bool {
+			if is, ok2 := x.(*ast.IfStmt); ok2 && str(is.Cond) == "!ok" && len(is.Body.List) >= 2 {
+				if first, ok3 := is.Body.List[0].(*ast.IfStmt); ok3 && strings.Contains(str(first.Init), "ctx.Err()") && hasReturn(first.Body) {
+					ok = true
+				}
+			}
+			return true
+		})
+		add("closedPrefersCtx", ok, "")
+	}
 	// mux.okStatusIsSuccess
 	{
 		fd := mux.fn("RpcMultiplexer", "CallUnaryMethod")
